@@ -150,7 +150,14 @@ impl Exec {
             .filter(|t| t.fut.is_some())
             .map(|t| {
                 let st = t.status.get();
-                json!({"task": t.name, "api": st.as_ref().map(|s| s.0.clone()), "waits_on": st.as_ref().map(|s| s.1.clone())})
+                let api = st.as_ref().map(|s| s.0.clone()).unwrap_or_default();
+                let w = st.as_ref().map(|s| s.1.clone()).unwrap_or_else(|| "script".to_string());
+                // "rx:4" / "tx:4" -> kind + stream id, so that the trace specs need no string parsing
+                let (kind, sid) = match w.split_once(':') {
+                    Some((k, n)) if (k == "rx" || k == "tx") && n.parse::<i64>().is_ok() => (k.to_string(), n.parse::<i64>().unwrap()),
+                    _ => ("other".to_string(), -1),
+                };
+                json!({"task": t.name, "api": api, "waits_on": w, "kind": kind, "sid": sid})
             })
             .collect()
     }
